@@ -38,24 +38,23 @@ Definition generate (ver ty : Z) (q b : bytes) : bytes :=
   encode_header (c_headerSize + 2 + zlen q + 2 + zlen b) ver ty
     ++ u16be (zlen q mod 65536) ++ q ++ u16be (zlen b mod 65536) ++ b.
 
-Inductive outcome (A : Type) : Type := Ok (a : A) | Panic (why : Z).
+Inductive outcome (A : Type) : Type := Ok (a : A) | Bad (why : Z).   (* Bad: the error return of the bounds checks *)
 Arguments Ok {A} a.
-Arguments Panic {A} why.
+Arguments Bad {A} why.
 
 Definition slice (l : bytes) (lo hi : Z) : bytes :=
   firstn (Z.to_nat (hi - lo)) (skipn (Z.to_nat lo) l).
 
-(* Session.extractShmMetadata(body) = (bufferPath, queuePath); the four Go slice expressions panic
-   exactly where the bounds are exceeded (cap body = len body: it comes from make([]byte, n)) *)
+(* Session.extractShmMetadata(body) = (bufferPath, queuePath, err): the lengths come from the peer and
+   every slice is checked against what was received (three checks, each returns an error) *)
 Definition extract (body : bytes) : outcome (bytes * bytes) :=
   let n := zlen body in
-  if n <? 2 then Panic 1 else
+  if n <? 2 then Bad 1 else
   let ql := rd16 (nth 0 body 0) (nth 1 body 0) in
-  if n <? 2 + ql then Panic 2 else
+  if n <? 2 + ql + 2 then Bad 2 else
   let off := 2 + ql in
-  if n <? off + 2 then Panic 3 else
   let bl := rd16 (nth (Z.to_nat off) body 0) (nth (S (Z.to_nat off)) body 0) in
-  if n <? off + 2 + bl then Panic 4 else
+  if n <? off + 2 + bl then Bad 3 else
   Ok (slice body (off + 2) (off + 2 + bl), slice body 2 (2 + ql)).
 
 Record hdr := { h_len : Z; h_magic : Z; h_ver : Z; h_type : Z }.
@@ -76,15 +75,15 @@ Inductive frame := FBytes (b : bytes) | FFds (fds : list Z).
 
 Inductive err :=
   | EEOF | EPipe | EInvalidVersion | EInvalidMsgType | EUnexpectedType | EUnsupportedVersion
-  | EMapQueue | EMapBuffer | EFdCount | ENoOob | ETimeout | ENotUnix.
-Inductive result := ROk | RErr (e : err) | RPanic (why : Z).
+  | EMapQueue | EMapBuffer | EFdCount | ENoOob | ETimeout | ENotUnix | EBadMetadata.
+Inductive result := ROk | RErr (e : err) | RPanic (why : Z).   (* RPanic: no step produces it any more (bounds checks of the handshake readers); kept as an outcome class *)
 
 Definition err_eqb (a b : err) : bool :=
   match a, b with
   | EEOF, EEOF | EPipe, EPipe | EInvalidVersion, EInvalidVersion | EInvalidMsgType, EInvalidMsgType
   | EUnexpectedType, EUnexpectedType | EUnsupportedVersion, EUnsupportedVersion
   | EMapQueue, EMapQueue | EMapBuffer, EMapBuffer | EFdCount, EFdCount | ENoOob, ENoOob
-  | ETimeout, ETimeout | ENotUnix, ENotUnix => true
+  | ETimeout, ETimeout | ENotUnix, ENotUnix | EBadMetadata, EBadMetadata => true
   | _, _ => false
   end.
 
@@ -276,11 +275,12 @@ Definition body_of (h : hdr) (whole : bytes) : option bytes :=
 (* handleShareMemoryByFilePath; [ack] = the V3 acknowledgement, absent in V2 *)
 Definition handle_file (f : list mapping) (ver : Z) (h : hdr) (whole : bytes) (rest : list frame)
                        (peer_open : bool) (ack : list frame) : option sstep_out :=
+  if h_len h <? c_headerSize then Some (sfail ver None rest [FBytes whole] (RErr EBadMetadata)) else
   match body_of h whole with
   | None => if peer_open then None else Some (sfail ver None rest [FBytes whole] (RErr EEOF))
   | Some body =>
       match extract body with
-      | Panic why => Some (sfail ver None rest [FBytes whole] (RPanic why))
+      | Bad _ => Some (sfail ver None rest [FBytes whole] (RErr EBadMetadata))
       | Ok (bp, qp) =>
           match lookup qp f with
           | None => Some (sfail ver None rest [FBytes whole] (RErr EMapQueue))
@@ -344,11 +344,12 @@ Definition sstep (f : list mapping) (pc : spc_t) (ver : Z) (inbox : list frame) 
               if h_type h =? c_typeShareMemoryByFilePath
               then handle_file f ver h whole rest peer_open [hdr8 ver c_typeAckShareMemory]
               else if h_type h =? c_typeShareMemoryByMemfd then
+                if h_len h <? c_headerSize then Some (sfail ver None rest [FBytes whole] (RErr EBadMetadata)) else
                 match body_of h whole with
                 | None => if peer_open then None else Some (sfail ver None rest [FBytes whole] (RErr EEOF))
                 | Some body =>
                     match extract body with
-                    | Panic why => Some (sfail ver None rest [FBytes whole] (RPanic why))
+                    | Bad _ => Some (sfail ver None rest [FBytes whole] (RErr EBadMetadata))
                     | Ok (bp, qp) =>
                         if peer_open
                         then Some {| so_pc := SWaitFds bp qp; so_ver := ver; so_mapq := None; so_mapb := None;
